@@ -90,7 +90,7 @@ def parsePItem (s : String) : Option PItem :=
   match s.splitOn "," with
   | [op, occ, w, a, b] =>
     match parseOpTok op, parseOccTok occ, textOfHex w, a.toNat?, b.toNat? with
-    | some op, some occ, some w, some a, some b => some ⟨op, occ, w, a, b⟩
+    | some op, some occ, some w, some a, some b => some ⟨op, occ, wordOpd w, a, b⟩
     | _, _, _, _, _ => none
   | _ => none
 
@@ -101,7 +101,7 @@ def handlePrintList (lead occ w k items : String) : String :=
   | some lead, some occ, some w, some k =>
     let its : Option (List PItem) := if items == "-" then some [] else (items.splitOn ";").mapM parsePItem
     match its with
-    | some its => hexStr (printList lead occ w its k)
+    | some its => hexStr (printList lead occ (wordOpd w) its k [])
     | none => "bad-op"
   | _, _, _, _ => "bad-op"
 
